@@ -72,11 +72,12 @@ Definition call_ok (c : qcall) (v : Z) (l : list event) : bool :=
     end
   else if Nat.eqb id 1 then
     (* get: returns exactly the message it received; Empty only after a failed lock acquire
-       or a poll that found nothing *)
+       or a poll that found nothing or a clock reading past its deadline *)
     match first_res PIPE 4 l with
     | Some x => v =? x
     | None => (v =? E_EMPTY) && (match first_res 1 0 l with Some 0 => true | _ => false end
-                                 || match first_res PIPE 5 l with Some 0 => true | _ => false end)
+                                 || match first_res PIPE 5 l with Some 0 => true | _ => false end
+                                 || match first_res CLOCK 6 l with Some 1 => true | _ => false end)
     end
   else if Nat.eqb id 7 then
     match first_res PIPE 4 l with Some x => v =? x | None => false end
@@ -126,14 +127,60 @@ Fixpoint evens {A} (l : list A) : list A :=
 Fixpoint odds {A} (l : list A) : list A :=
   match l with _ :: y :: r => y :: odds r | _ => [] end.
 
+(* a feeder whose thread has ended (Queue._feed returned after an exception) took with it the
+   message it had popped and that message's capacity token; what is still in its buffer stays
+   there for ever.  The accounting at a quiet end counts exactly those. *)
+Fixpoint dead_tokens (bufs : list (list Z)) (ffins : list bool) : Z :=
+  match bufs, ffins with
+  | b :: bufs', d :: ffins' => (if d then 1 + Z.of_nat (length b) else 0) + dead_tokens bufs' ffins'
+  | _, _ => 0
+  end.
+Fixpoint live_bufs_empty (bufs : list (list Z)) (ffins : list bool) : bool :=
+  match bufs, ffins with
+  | b :: bufs', d :: ffins' => (d || match b with [] => true | _ => false end) && live_bufs_empty bufs' ffins'
+  | _, _ => true
+  end.
+
 Definition capacity_ok (kind maxsize : Z) (fins : list bool) (vals : list Z) (pipe : list Z)
            (bufs : list (list Z)) (pend : list Z) : bool :=
   let s := nth 0 vals 0 in
   (0 <=? s) && (s <=? maxsize)
   && (if (kind <? 2) && forallb (fun b => b) (evens fins)
          && forallb (fun p => (p =? -1) || (9 <=? p) && negb (p =? 100)) (odds pend)
-         && forallb (fun b => match b with [] => true | _ => false end) bufs
-      then s + Z.of_nat (length pipe) =? maxsize else true).
+         && live_bufs_empty bufs (odds fins)
+      then s + Z.of_nat (length pipe) + dead_tokens bufs (odds fins) =? maxsize else true).
+
+(* the thread of some feeder has ended although its queue is still in use *)
+Definition feeder_ended (fins : list bool) : bool := existsb (fun b => b) (odds fins).
+
+(* locks: a call that has returned or raised, and a feeder whose thread has ended, hold none of
+   _rlock, _wlock, the condition's lock of a JoinableQueue, the lock of their _notempty *)
+Definition net_held (s : nat) (l : list event) : Z :=
+  fold_left (fun a e => let '(_, o, op, r) := e in
+                        if Nat.eqb o s && (op =? 0) && (r =? 1) then a + 1
+                        else if Nat.eqb o s && (op =? 1) && (r =? 0) then a - 1 else a) l 0.
+Definition holds_none (t : nat) (l : list event) : bool :=
+  forallb (fun s => net_held s l =? 0) [1%nat; 2%nat; 4%nat; (8 + 2 * Nat.div t 2)%nat].
+Definition evs_of_thread (t : nat) (es : list event) : list event :=
+  filter (fun e => let '(t', _, _, _) := e in Nat.eqb t' t) es.
+Fixpoint locks_ok (es : list event) (ks : list nat) (t : nat) (res : list (list Z)) (fins : list bool) : bool :=
+  match res, fins with
+  | rs :: res', f :: fins' =>
+    (if Nat.even t then forallb (fun k => holds_none t (evs_of t k es ks)) (seq 0 (length rs))
+     else negb f || holds_none t (evs_of_thread t es))
+    && locks_ok es ks (S t) res' fins'
+  | _, _ => true
+  end.
+
+(* an item that is in the pipe is not kept from a get that is waiting for one: at a deadlock
+   end (nothing can move any more) with a message in the pipe no main thread is inside get *)
+Fixpoint get_stuck_ok (scs : list (list qcall)) (res : list (list Z)) (fins : list bool) : bool :=
+  match scs, res, fins with
+  | sc :: scs', rm :: _rf :: res', fm :: _ff :: fins' =>
+    let '(id, _, _, _) := nth (length rm) sc (99%nat, 0, 0, 0) in
+    negb (negb fm && is_get id) && get_stuck_ok scs' res' fins'
+  | _, _, _ => true
+  end.
 
 (* no lost feeder wake-up: at a deadlock end a process with a non-empty buffer does not have
    its feeder asleep on the notification semaphore of _notempty *)
@@ -224,20 +271,25 @@ Definition qmonitors (kind maxsize : Z) (scripts : list (list qcall)) (o : qobse
   && ((endk =? 2) || feeders_ok 0 bufs pend)
   && all_joins_ok scripts es ks 0 scripts res
   && taskdone_ok scripts es ks (0 :: unfinished_after scripts 0 es ks)
-  && (negb (endk =? 1) || join_stuck_ok (last (unfinished_after scripts 0 es ks) 0) scripts res fins).
+  && (negb (endk =? 1) || join_stuck_ok (last (unfinished_after scripts 0 es ks) 0) scripts res fins)
+  && locks_ok es ks 0 res fins
+  && (negb (endk =? 1) || match pipe with [] => true | _ => get_stuck_ok scripts res fins end).
 
 (* ------------------------------------------------------------------ correspondence *)
 Definition qmodel_obs (maxsize : Z) (scripts : list (list qcall)) (sched : list (nat * bool)) :=
   let '(g, es, ok) := qrun code (qinit maxsize scripts) sched in
-  (es, map (fun t => rev (map snd (qresults t))) (qthr g), map qfin (qthr g), map val (qsems g),
+  (es, map (fun t => rev (map snd (qresults t))) (qthr g), map (fun t => qfin t || qexited code t) (qthr g),
+   map val (qsems g),
    pipe g, map buf (procs g), ok).
 
 Definition fins_eqb (impl model : list bool) : bool :=
-  (* a dormant feeder is "not finished" on both sides *)
+  (* a dormant feeder is "not finished" on both sides; a feeder whose _feed has returned is finished *)
   list_eqb Bool.eqb impl model.
 
 (* 0 = identical; 2 = a property monitor fails on the implementation's trace, or the same
-   history gave different call results; 1 = other difference *)
+   history gave different call results; 1 = other difference; 3 = model and implementation agree
+   and every other monitor passes, but a feeder thread has ended: the message it held and its
+   capacity token are lost and nothing this process puts afterwards is ever delivered *)
 Definition check_case (c : qcase) : Z :=
   let '(kind, maxsize, scripts, sched, o) := c in
   let '(es, ks, res, fins, vals, pp, bufs, pend, endk) := o in
@@ -247,5 +299,6 @@ Definition check_case (c : qcase) : Z :=
   if negb (qmonitors kind maxsize scripts o) then 2
   else if same_ev && negb same_res then 2
   else if same_ev && same_res && fins_eqb fins mfins && list_eqb Z.eqb vals mvals
-          && list_eqb Z.eqb pp mpipe && list_eqb (list_eqb Z.eqb) bufs mbufs then 0
+          && list_eqb Z.eqb pp mpipe && list_eqb (list_eqb Z.eqb) bufs mbufs
+       then (if feeder_ended fins then 3 else 0)
   else 1.
